@@ -204,7 +204,7 @@ def linear_harness(cname, Dn, K, mode):
                 # for an arbitrary incoming `outputs`; the product of orthogonal matrices is orthogonal (lemmas/Lemmas.lean)
                 from tsv.instrument import loop_carried
                 lc = loop_carried(HouseholderSequence._apply_transforms)
-                ctx.oblige("proof-side-condition", z3.BoolVal(len(lc) == 1 and lc[0][1] == ["outputs"]), label="C11.reflection-loop-carries-outputs-only",
+                ctx.oblige("proof-side-condition", z3.BoolVal(len(lc) == 1 and len(lc[0][1]) == 1), label="C11.reflection-loop-carries-outputs-only",
                            loc=("contract", h.hid.split("[")[0], 0), meta={"loops": str(lc)})
                 ensure(h, ctx, "C13.no-write", z3.BoolVal(not [w for w in ctx.writes if w[0] != "fresh"]), meta={"writes": str([w for w in ctx.writes if w[0] != "fresh"][:3])})
                 for b in range(B):
